@@ -59,6 +59,14 @@ Proof.
 Qed.
 Print Assumptions C18_not_below_commit.
 
+(** a commit report that names a transaction the pool was given and whose (account, nonce) slot has been
+    occupied ever since - by it or by a conflicting transaction that took the slot over - moves the
+    commit nonce past that nonce (so the pool never goes on batching a nonce a reported block consumed) *)
+Theorem C18_commit_recognised : forall p accts univ ops i, good_history accts univ ops ->
+  ~ In (E_commit_missed, i) (model_fails p accts univ ops).
+Proof. exact (fun p accts univ ops i => code_never p accts univ ops E_commit_missed i). Qed.
+Print Assumptions C18_commit_recognised.
+
 (** a batch never exceeds the configured size (the suspected isTimed / counter = 0 escape is unreachable) *)
 Theorem C18_batch_size : forall p accts univ ops i, good_history accts univ ops ->
   ~ In (E_batch_size, i) (model_fails p accts univ ops).
